@@ -70,7 +70,9 @@ def _rand_bus(rng):
         lo = rng.randrange(0, 0xF0)
         hi = lo + rng.choice([0, 1, 3, 0x0F, 0x3F])
         mask = rng.choice([0x8000, 0x10000])   # the property's 32K/64K windows only
-        writable = rng.random() < 0.25
+        # `.map writable=<n>` hands the integer literal through as it is: anything that is not the object False
+        # (True, 1, 0, 2) denotes RAM
+        writable = rng.choice([False, False, False, False, False, True, 1, 0, 2])
         mirror = None
         if rng.random() < 0.5:
             mlo = rng.randrange(0, 0xF0)
@@ -176,7 +178,7 @@ def _busdesc(desc) -> str:
         return "BHigh"
     steps = ";".join(
         f"{{| ms_id := {C.cstr(s['id'])}; ms_lo := {C.z(s['lo'])}; ms_hi := {C.z(s['hi'])}; ms_mask := {C.z(s['mask'])}; "
-        f"ms_writable := {C.cbool(s['writable'])}; ms_mirror := {C.copt(s['mirror'], lambda m: C.cpair(C.z(m[0]), C.z(m[1])))} |}}"
+        f"ms_writable := {C.cbool(s['writable'] is not False)}; ms_mirror := {C.copt(s['mirror'], lambda m: C.cpair(C.z(m[0]), C.z(m[1])))} |}}"
         for s in desc)
     return f"(BUser [{steps}])"
 
